@@ -37,7 +37,7 @@ def budget(tier):
 
 
 def strategy(tier):
-    return trav.cases()
+    return trav.cases(big=(tier != "quick"))
 
 
 def enumerate_cases(tier, shard=0, nshards=1):
